@@ -102,6 +102,39 @@ func runCodeGetter(c *core.Ctx) {
 						nIf++
 						checkCodeVisitor(c, name, g, call.Call.Args[1])
 					}
+				case *ssa.UnOp:
+					// the explicit form of the lookup: a walk from the caller's error along UnwrapOnce that returns
+					// the code field of the first layer of the wrapper type
+					fa, _ := x.X.(*ssa.FieldAddr)
+					var ta *ssa.TypeAssert
+					if fa != nil {
+						if ex, ok := fa.X.(*ssa.Extract); ok && ex.Index == 0 {
+							ta, _ = ex.Tuple.(*ssa.TypeAssert)
+						} else {
+							ta, _ = fa.X.(*ssa.TypeAssert)
+						}
+					}
+					wt := c.P.Named(g.pkg, g.wrapper)
+					ok := x.Op == token.MUL && fa != nil && ta != nil && wt != nil && types.Identical(sx.Deref(ta.AssertedType), wt) &&
+						isStructField(fa, wt, "code") && isChainPosition(ta.X, fn.Params[0], map[ssa.Value]bool{}, 0)
+					if ok && blockReachesItself(x.Block()) {
+						// the walk goes on after a match: a later (inner) layer's code would overwrite the outer one
+						ok = false
+					}
+					if ok && ta.CommaOk {
+						guarded := false
+						for _, l := range dominatingLits(x.Block()) {
+							if ex, isEx := l.V.(*ssa.Extract); isEx && ex.Tuple == ssa.Value(ta) && ex.Index == 1 && !l.Neg {
+								guarded = true
+							}
+						}
+						ok = guarded
+					}
+					c.Check(ok, name+": returned found value", ret.Pos(), "the code field of the first "+g.wrapper+" layer met walking the caller's error with UnwrapOnce",
+						"the returned code is not the code field of a layer of the caller's error reached by UnwrapOnce")
+					if ok {
+						nIf++
+					}
 				default:
 					c.Fail(name+": returned value "+describeVal(v), ret.Pos(), "the accessor returns a value that is neither a contract constant, the default, nor the code field found in the chain ("+fmt.Sprintf("%T", v)+"): codes are computed from the error in a way the contract does not describe")
 				}
@@ -1671,9 +1704,23 @@ var rJoinNode = &Rule{
 		// (a)
 		for _, ret := range sx.Returns(jwd) {
 			ok := false
+			isJoinOfAll := func(v ssa.Value) bool {
+				inner, isCall := v.(*ssa.Call)
+				return isCall && sx.Callee(inner) == join && len(inner.Call.Args) == 1 && inner.Call.Args[0] == ssa.Value(jwd.Params[len(jwd.Params)-1])
+			}
 			if call, isCall := ret.Results[0].(*ssa.Call); isCall && sx.Callee(call) != nil && sx.Callee(call).Name() == "WithStackDepth" && len(call.Call.Args) == 2 {
-				if inner, isCall := call.Call.Args[0].(*ssa.Call); isCall && sx.Callee(inner) == join && len(inner.Call.Args) == 1 && inner.Call.Args[0] == ssa.Value(jwd.Params[len(jwd.Params)-1]) {
+				if isJoinOfAll(call.Call.Args[0]) {
 					ok = true
+				}
+			}
+			if sx.IsNil(ret.Results[0]) {
+				// nil where the join of all arguments is nil (what WithStackDepth gives for it anyway)
+				for _, l := range dominatingLits(ret.Block()) {
+					if bin, isBin := l.V.(*ssa.BinOp); isBin && ((bin.Op == token.EQL && !l.Neg) || (bin.Op == token.NEQ && l.Neg)) {
+						if (sx.IsNil(bin.Y) && isJoinOfAll(bin.X)) || (sx.IsNil(bin.X) && isJoinOfAll(bin.Y)) {
+							ok = true
+						}
+					}
 				}
 			}
 			c.Check(ok, "errutil.JoinWithDepth: result", ret.Pos(), "WithStackDepth(join.Join(errs...), depth+1)",
@@ -2311,4 +2358,55 @@ var rPerLayer = &Rule{
 		}
 		c.Min("loops of BuildSentryReport", nLoops, 1)
 	},
+}
+
+// isStructField: fa addresses the named field of the struct type named.
+func isStructField(fa *ssa.FieldAddr, named *types.Named, field string) bool {
+	return types.Identical(sx.Deref(fa.X.Type()), named) && sx.FieldOf(fa).Name() == field
+}
+
+// isChainPosition: v is a position of a walk that starts at the parameter and
+// advances only by errbase.UnwrapOnce (of a chain position).
+func isChainPosition(v ssa.Value, p *ssa.Parameter, seen map[ssa.Value]bool, d int) bool {
+	if d > 8 {
+		return false
+	}
+	if seen[v] {
+		return true
+	}
+	seen[v] = true
+	switch x := v.(type) {
+	case *ssa.Parameter:
+		return x == p
+	case *ssa.Phi:
+		for _, e := range x.Edges {
+			if !isChainPosition(e, p, seen, d+1) {
+				return false
+			}
+		}
+		return true
+	case *ssa.Call:
+		f := sx.Callee(x)
+		return f != nil && f.Name() == "UnwrapOnce" && len(x.Call.Args) == 1 && isChainPosition(x.Call.Args[0], p, seen, d+1)
+	}
+	return false
+}
+
+// blockReachesItself: b lies on a cycle of the control-flow graph.
+func blockReachesItself(b *ssa.BasicBlock) bool {
+	seen := map[*ssa.BasicBlock]bool{}
+	work := append([]*ssa.BasicBlock{}, b.Succs...)
+	for len(work) > 0 {
+		x := work[len(work)-1]
+		work = work[:len(work)-1]
+		if x == b {
+			return true
+		}
+		if seen[x] {
+			continue
+		}
+		seen[x] = true
+		work = append(work, x.Succs...)
+	}
+	return false
 }
